@@ -141,6 +141,11 @@ def monitor(mode, p):
                 bad.append("%s: the error that came out is not the error object the %s produced" % (name, "serializer" if mode == "ser" else "deserializer"))
         if x["impl"].get("nhr_same") != "true":
             bad.append("%s behaves differently from T when the %s reports is_human_readable() == false" % (name, "serializer" if mode == "ser" else "deserializer"))
+        if mode == "ser" and h == "Arc":
+            im = x["impl"]
+            if "cnt_after" in im and (im.get("cnt_after") != "1" or im.get("unique_after") != "true" or im.get("freed") != "true"):
+                bad.append("%s: after this serialisation (%s) the handle is no longer what it was: count %s, is_unique %s, block freed on drop: %s — a reference "
+                           "was taken and not given back" % (name, x["kind"], im.get("cnt_after"), im.get("unique_after"), im.get("freed")))
         if mode == "dip":
             # in-place deserialisation into a handle that already exists (Arc: shared with two more owners, old count 3;
             # UniqueArc: sole).  "produces a NEW handle that is the SOLE owner": the place ends up on a fresh block with
